@@ -79,6 +79,10 @@ type Store struct {
 	// store's own choice) and optionally a function that runs after the request was
 	// applied and before the reply is returned (it may block: a delayed reply).
 	LeaseHook func(label string, id int64) (fault int, hold func())
+	// FailNth > 0: the FailNth-th request from now on is answered with FailKind (FaultRefused when 0)
+	// instead of the explorer's choice - fault injection for drivers that run without the scheduler.
+	FailNth  int
+	FailKind int
 	watchers  []*watcher
 	Requests  int
 	UseVClock bool
@@ -544,6 +548,14 @@ func (s *Store) begin(label string, write bool) (fault int) {
 	}
 	s.mu.Lock()
 	s.Requests++
+	if s.FailNth > 0 {
+		if s.FailNth--; s.FailNth == 0 {
+			fault = FaultRefused
+			if s.FailKind != 0 && write {
+				fault = s.FailKind
+			}
+		}
+	}
 	s.expireLocked()
 	if s.OnRequest != nil {
 		sched.Atomic(func() { s.OnRequest(label, write) })
